@@ -76,11 +76,20 @@ func (w mucJoinW) opts() []muc.Option {
 	if w.MaxChars != nil {
 		o = append(o, muc.MaxBytes(*w.MaxChars))
 	}
-	if w.Duration != nil {
+	switch {
+	case w.Duration != nil:
 		o = append(o, muc.Duration(*w.Duration))
+	case w.Seconds != nil && *w.Seconds <= uint64(1<<62)/uint64(time.Second):
+		// a decoded value: the option that yields the decoded number of seconds
+		o = append(o, muc.Duration(time.Duration(*w.Seconds)*time.Second))
 	}
-	if w.Since != nil {
+	switch {
+	case w.Since != nil:
 		o = append(o, muc.Since(*w.Since))
+	case w.SinceStr != nil:
+		if t, err := time.Parse(time.RFC3339Nano, *w.SinceStr); err == nil {
+			o = append(o, muc.Since(t))
+		}
 	}
 	if w.Password != "" {
 		o = append(o, muc.Password(w.Password))
@@ -221,6 +230,17 @@ func init() {
 		},
 		rt:   func(v *mucJoinW) bool { return v.Since == nil || inRange(*v.Since) },
 		text: func(v *mucJoinW) []string { return []string{v.Password, v.Nick} },
+		// a decoded payload is only a value of the exported API when the options can produce
+		// it again: `since` is a time (the decoder keeps any string), `seconds` a Duration
+		valid: func(v *mucJoinW) bool {
+			if v.SinceStr != nil {
+				t, err := time.Parse(time.RFC3339Nano, *v.SinceStr)
+				if err != nil || !inRange(t) || t.UTC().Format(time.RFC3339Nano) != *v.SinceStr {
+					return false
+				}
+			}
+			return v.Seconds == nil || *v.Seconds <= uint64(1<<62)/uint64(time.Second)
+		},
 	})
 	register(spec[pubRespW]{name: "pubsub.publishResponse",
 		gen:        func(g *gen) pubRespW { return pubRespW{ID: g.text()} },
